@@ -4,8 +4,9 @@
 
   * crossings of two different holes are disjoint (`II = F`, `BB ≤ 0` of the hole-pair clause),
   * no hole crossing is a shell crossing, and the shell winds around every hole crossing
-    (`BE = F`, `BB ≤ 0` of the hole/shell clause) — given that the winding number of the shell takes
-    only two values (`TwoValued`, the Jordan-curve property of the simple shell ring).
+    (`BE = F`, `BB ≤ 0` of the hole/shell clause) — given that one side of every shell edge is
+    outside (`EdgeOuter`, the Jordan-curve property of the simple shell ring, proved in
+    `WINDJordan.edgeJordan`).
 -/
 import GeoProofs.Lemmas.WINDCross
 import GeoProofs.Lemmas.C12QValid
@@ -113,10 +114,10 @@ theorem valid_hole_crossings_disjoint {q : Poly} (hv : polyValid q = true) {y : 
   · intro hmem
     exact hy _ (mem_rings_coords hr1 hmem) rfl
 
-/-- **no hole crossing of a valid polygon is a shell crossing**, when the winding number of the
-shell is two-valued -/
+/-- **no hole crossing of a valid polygon is a shell crossing**, when one side of every
+shell edge is outside -/
 theorem valid_hole_shell_crossings_disjoint {q : Poly} (hv : polyValid q = true)
-    (htv : TwoValued q.ext) {y : Rat} (hy : ∀ v ∈ q.coords, v.y ≠ y) :
+    (htv : EdgeOuter q.ext) {y : Rat} (hy : ∀ v ∈ q.coords, v.y ≠ y) :
     ∀ hole ∈ q.ints, ∀ t ∈ (segs hole).flatMap (crossXs y), t ∉ (segs q.ext).flatMap (crossXs y) := by
   obtain ⟨hse, hsimple, _⟩ := polyValid_unpack hv
   intro hole hh t ht1 ht2
@@ -132,7 +133,7 @@ theorem valid_hole_shell_crossings_disjoint {q : Poly} (hv : polyValid q = true)
 
 /-- **the shell winds around every hole crossing** -/
 theorem valid_shell_winds_hole_crossings {q : Poly} (hv : polyValid q = true)
-    (htv : TwoValued q.ext) {y : Rat} (hy : ∀ v ∈ q.coords, v.y ≠ y) :
+    (htv : EdgeOuter q.ext) {y : Rat} (hy : ∀ v ∈ q.coords, v.y ≠ y) :
     ∀ hole ∈ q.ints, ∀ t ∈ (segs hole).flatMap (crossXs y),
       windingE (EPt.ofPt ⟨t, y⟩) q.ext ≠ 0 := by
   obtain ⟨hse, hsimple, hbe⟩ := polyValid_unpack hv
